@@ -106,10 +106,11 @@ def shell_flags(kind, e):
     return [i == 0 for poly in e for i in range(len(poly))]
 
 
-def check_array(col, kind, st, T, elems, boxes, qpts, deep):
-    """elems: lattice elements (None / () allowed)"""
-    case = {"kind": kind, "subtype": st, "T": list(T), "elems": [jelem(e) for e in elems]}
-    arr0 = L.make_array(kind, elems, st, T)
+def check_array(col, kind, st, T, elems, boxes, qpts, deep, pre=None):
+    """elems: lattice elements (None / () allowed); pre: elements stored BEFORE them in the same buffers (the array under
+    test is then the slice [len(pre):] of a longer array)"""
+    case = {"kind": kind, "subtype": st, "T": list(T), "elems": [jelem(e) for e in elems], "pre": [jelem(e) for e in (pre or [])]}
+    arr0 = L.make_array(kind, list(pre or []) + list(elems), st, T)[len(pre or []):]
     views = [("full", arr0, 0, len(elems))]
     if len(elems) >= 2:
         views += [("slice[1:]", arr0[1:], 1, len(elems)), ("slice[:-1]", arr0[:-1], 0, len(elems) - 1)]
@@ -256,8 +257,21 @@ def wide_polygons(st):
     return out
 
 
+def long_arrays(kind):
+    """20-element arrays (validity bitmap spans three bytes) with missing elements around the byte boundaries; the
+    check also looks at the slices [1:] and [:-1]; explicit byte-aligned slices are added by the caller"""
+    fam = polygon_family(False) if kind == "polygon" else multipolygon_family(False)
+    el = [fam[(i * 7) % len(fam)] for i in range(20)]
+    for i in (1, 7, 8, 10, 15, 18):
+        el[i] = None
+    el[12] = ()
+    return el
+
+
 def plan(ctx):
     units = []
+    for kind in ("polygon", "multipolygon"):
+        units.append((kind, "long", None))
     for st in L.SUBTYPES:
         w = wide_polygons(st)
         for c in range(0, len(w), 1200):
@@ -295,6 +309,14 @@ def run(ctx):
     def work(col, i):
         j = (i + rot) % len(units)
         kind, mode, items = units[j]
+        if mode == "long":
+            el = long_arrays(kind)
+            for st in L.SUBTYPES:
+                T = L.transform_for(st, ctx.seed, salt=j)
+                check_array(col, kind, st, T, el, boxes, qpts, deep=False)
+                check_array(col, kind, st, T, el[8:], boxes, qpts, deep=False, pre=el[:8])
+                check_array(col, kind, st, T, el[16:], boxes, qpts, deep=False, pre=el[:16])
+            return
         if mode.startswith("wide:"):
             check_array(col, kind, mode[5:], (1, 0, 0), list(items) + [None], boxes, qpts, deep=False)
             return
@@ -324,5 +346,5 @@ def replay(ctx, case):
     col = core.Collector()
     elems = [telem(e) for e in case["elems"]]
     check_array(col, case["kind"], case["subtype"], tuple(case["T"]), elems, L.all_boxes(5)[::7],
-                L.all_query_points(5), deep=True)
+                L.all_query_points(5), deep=True, pre=[telem(e) for e in case.get("pre", [])] or None)
     return col.violations
